@@ -76,9 +76,21 @@ def run_impl(inst, explicit_positions):
     positions = [(c + 1) * 10 for c in range(C)] if explicit_positions else None
     try:
         dp = PedigreeDPTable(rs, list(inst["rc"]), ped, bool(inst["distrust"]), positions)
-        superreads, tv = dp.get_super_reads()
-        cost = dp.get_optimal_cost()
-        part = dp.get_optimal_partitioning()
+        # the three observers are queried in an order that depends on the instance (every order occurs), the
+        # partitioning sometimes twice: what one of them reports must not depend on what was asked before
+        h = (len(inst["reads"]) * 7 + C * 3 + sum(a for _i, al, _w in inst["reads"] for a in al if a >= 0) + sum(w for _i, _al, ws in inst["reads"] for w in ws) + n_ind) % 8
+        calls = [("s", "c", "p"), ("p", "s", "c"), ("c", "p", "s"), ("p", "c", "s"), ("s", "p", "c"), ("c", "s", "p"), ("p", "p", "s", "c"), ("p", "s", "p", "c")][h]
+        got = {}
+        for what in calls:
+            if what == "s":
+                got["s"] = dp.get_super_reads()
+            elif what == "c":
+                got["c"] = dp.get_optimal_cost()
+            else:
+                got["p"] = dp.get_optimal_partitioning()
+        superreads, tv = got["s"]
+        cost = got["c"]
+        part = got["p"]
     except RuntimeError as e:
         return ("raise", str(e))
     part_bits = 0
